@@ -29,6 +29,9 @@ class ExcelType:
         inst.value = value
         return inst
 
+    def __getnewargs__(self):
+        return (self.value,)
+
     @classmethod
     def cast(cls, value):
         if isinstance(value, cls):
